@@ -2001,7 +2001,15 @@ class FuncGetOutputString(ValueFunc):
 
     def execute(self, args, environment, pos):
         output = args.getOutput("output")
-        return ValueString(output.output.output)
+        # only a string output keeps what was written to it
+        text = getattr(output.output, "output", None)
+        if not isinstance(text, str):
+            raise CklRuntimeError(
+                ValueString("ERROR"),
+                "Output object is not a string output",
+                pos,
+            )
+        return ValueString(text)
 
 
 class FuncGreater(ValueFunc):
@@ -3569,7 +3577,15 @@ class FuncRound(ValueFunc):
         digits = 0
         if args.hasArg("digits"):
             digits = args.getInt("digits").value
-        return decimal_value(round(x.asDecimal().value, digits), pos)
+        try:
+            return decimal_value(round(x.asDecimal().value, digits), pos)
+        except OverflowError:
+            # rounding up to a digit left of the point can leave the range
+            raise CklRuntimeError(
+                ValueString("ERROR"),
+                "Number too large for decimal arithmetic",
+                pos,
+            )
 
 
 class FuncRun(ValueFunc):
